@@ -1264,7 +1264,7 @@ fn gen_c03(rng: &mut Rng, r: u64) -> Value {
     v["mode"] = json!(f.1);
     // declared sizes that do not match the data, on both sides of the mmap threshold: the commit is rejected,
     // but whatever reaches the content area must still be exactly the data of its address
-    if v["entry"] == "opts" && rng.chance(1, 3) {
+    if v["entry"] == "opts" && rng.chance(1, 2) {
         let s = match rng.below(5) {
             0 => len + 1,
             1 => len.saturating_sub(1),
@@ -1273,6 +1273,10 @@ fn gen_c03(rng: &mut Rng, r: u64) -> Value {
             _ => (1 << 20) + 1,
         };
         v["opts"]["size"] = json!(s);
+        if len >= 2 && rng.chance(2, 3) {
+            let a = rng.range(1, len - 1);
+            v["chunks"] = json!(if rng.chance(1, 2) || len - a < 2 { vec![a, len - a] } else { let b = rng.range(1, len - a - 1); vec![a, b, len - a - b] });
+        }
     }
     let mut post = Vec::new();
     for fl in PURE {
@@ -1722,6 +1726,15 @@ fn gen_same_content(rng: &mut Rng, _tier: &str) -> Value {
             st["opts"] = json!({"size": vals[0]["len"]});
         }
         clients.push(json!({"bin":f.0,"steps":[st]}));
+    }
+    if !prelude.is_empty() && rng.chance(2, 3) {
+        // the content is already stored: a concurrent reader by address must find it whatever the re-writers do
+        let f = flav(rng);
+        let st = if rng.chance(3, 4) { json!({"k":"api","op":"read","addr":{"val":0,"algo":"sha256"},"mode":f.1}) } else { json!({"k":"api","op":"exists","addr":{"val":0,"algo":"sha256"},"mode":f.1}) };
+        clients.push(json!({"bin":f.0,"steps":[st]}));
+        if clients.len() > 3 {
+            clients.remove(0);
+        }
     }
     let observe = vec![
         json!({"k":"api","op":"metadata","key":0,"bin":"sync","mode":"sync"}),
